@@ -131,12 +131,16 @@ def expected_connect(w, ctrl, hsrc, p1, p2, p3, p4):
         return True, 0, uniq, name
     if rid < 1 or rid > cd.DYN_MOD_ID_START:
         return False, rid, uniq, name
+    either = False
     for k, o in enumerate(w.O):
         if w.pre_ids[1 + k] == rid and (o.unique or uniq):
             return False, rid, uniq, name
-        if name and (o.unique or uniq) and o.name == name:
-            return False, rid, uniq, name
-    return True, rid, uniq, name
+        if name and o.name == name:
+            if o.unique:
+                return False, rid, uniq, name   # "reuses the name of a unique module while giving an explicit id"
+            if uniq:
+                either = True                   # a unique newcomer sharing a non-unique module's name: the property is silent
+    return (None if either else True), rid, uniq, name
 
 
 def oracle(which, ht, hsrc, hdst, hdh, nbytes, p1, p2, p3, p4, p5, sid, id1, id2, t0, off, u1, u2):
@@ -161,7 +165,8 @@ def oracle(which, ht, hsrc, hdst, hdh, nbytes, p1, p2, p3, p4, p5, sid, id1, id2
             return False, "bystander %d removed" % k
         if alive[k] and not m.conn.whole_frames():
             return False, "module %d received a torn frame" % k
-    delivered = recv == "full" or (recv in ("short_d", "reset_d") and nbytes == 0)
+    length_ok = 0 <= nbytes <= 1024 ** 2   # a header declaring an unreceivable length makes the manager drop that client
+    delivered = length_ok and (recv == "full" or (recv in ("short_d", "reset_d") and nbytes == 0))
     if which == "c03":
         return True, ""
 
@@ -212,6 +217,8 @@ def oracle(which, ht, hsrc, hdst, hdh, nbytes, p1, p2, p3, p4, p5, sid, id1, id2
     accept = None
     if ctrl in ("CONNECT", "CONNECT_V2") and delivered and sstate == 0:
         accept, rid, uniq, name = expected_connect(w, ctrl, hsrc, p1, p2, p3, p4)
+        if accept is None and which == "c19":
+            accept = alive[0]
     if which == "c19":
         want = 0
         if delivered:
@@ -241,8 +248,10 @@ def oracle(which, ht, hsrc, hdst, hdh, nbytes, p1, p2, p3, p4, p5, sid, id1, id2
         return True, ""
 
     if which == "c06":
-        if accept is None:
+        if not (ctrl in ("CONNECT", "CONNECT_V2") and delivered and sstate == 0):
             return True, ""
+        if accept is None:
+            accept = alive[0]   # either outcome is allowed; whichever happened must still be carried out cleanly
         if not accept:
             if alive[0] or not S.conn.closed:
                 return False, "request that must be refused was not refused (connection left open)"
@@ -287,8 +296,8 @@ def oracle(which, ht, hsrc, hdst, hdh, nbytes, p1, p2, p3, p4, p5, sid, id1, id2
 
 def _pre(ht, hsrc, hdst, hdh, nbytes, p1, p2, p3, p4, p5, sid, id1, id2, t0, off, u1, u2):
     ctrl = sh("ctrl")
-    if ctrl == "data" and (ht in CTRL_IDS):
-        return False
+    if ctrl == "data" and (ht in CTRL_IDS or ht == ACK):
+        return False   # a client-published frame of type ACKNOWLEDGE is ordinary data, indistinguishable from an ACK on the wire: excluded
     no = len(sh("others", []))
     # Inv I5 on the pre-state: connected modules have ids 1..199, equal ids only if neither is unique
     ids = [sid, id1, id2]
